@@ -35,7 +35,7 @@ class MarkovDecisionProcess(Generic[State, Action]):
     @method_cache
     def reachable_states(self, max_states=float('inf')) -> Set[State]:
         S0 = {e for e, p in self.initial_state_dist().items() if p > 0}
-        frontier = set(S0)
+        frontier = {s for s in S0 if not self.is_absorbing(s)}
         visited = set(S0)
         while len(frontier) > 0:
             if len(visited) >= max_states:
